@@ -605,6 +605,30 @@ func init() {
 						return v
 					}
 				}
+				for _, o := range sa.AtEnd {
+					// "reset-empty:<collection>": the collection was reset while requests of its clients were being served. In
+					// either order the collection ends without datatypes, operations, snapshots and clients (a request served
+					// before the reset is removed by it, one served after it comes from a client that is no longer registered)
+					if strings.HasPrefix(o, "reset-empty:") {
+						coll := strings.TrimPrefix(o, "reset-empty:")
+						if left := strings.TrimSpace(stripHeaders(m.projection(coll))); left != "" {
+							// which kinds of documents remain is part of the signature
+							var kinds []string
+							cur := ""
+							for _, l := range strings.Split(m.projection(coll), "\n") {
+								if strings.HasPrefix(l, "## ") {
+									cur = strings.TrimPrefix(strings.TrimPrefix(l, "## "), "-_-")
+									if strings.HasPrefix(cur, "user:") {
+										cur = "user-document"
+									}
+								} else if strings.TrimSpace(l) != "" && (len(kinds) == 0 || kinds[len(kinds)-1] != cur) {
+									kinds = append(kinds, cur)
+								}
+							}
+							return viol("C17:reset-raced-by-a-request-left-documents:"+strings.Join(kinds, "+"), "after ResetCollection(%s) and the requests that ran next to it, these documents of the collection remain:\n%s\nschedule %v", coll, clip(left, 1200), x.trace)
+						}
+					}
+				}
 				if has(sa.AtEnd, "onedoc") {
 					// exactly one datatype document per (collection, key)
 					seen := map[string]int{}
